@@ -61,9 +61,13 @@ func propC10(c *Ctx) {
 		any := `("" == $1)`
 		hasAny := `$0[""]#1`
 		hasAddr := `$0[$1]#1`
-		c.CheckTable(q2, fn, []string{any, hasAny, hasAddr}, func(a map[string]bool) string {
+		empty := `(0 == builtin:len($0))`
+		c.CheckTable(q2, fn, []string{any, hasAny, hasAddr, empty}, func(a map[string]bool) string {
 			if a[any] {
-				return "(0 == builtin:len($0))" // wildcard request: free iff nothing at all is bound
+				if a[empty] { // wildcard request: free iff nothing at all is bound
+					return "true"
+				}
+				return "false"
 			}
 			if a[hasAny] || a[hasAddr] {
 				return "false"
@@ -108,15 +112,12 @@ func propC10(c *Ctx) {
 			}
 		})
 		n := 0
-		Instrs(fn, func(in ssa.Instruction) {
-			if mu, ok := in.(*ssa.MapUpdate); ok {
-				t := NewTermer(fn)
-				if strings.HasSuffix(t.T(mu.Map), "}") && t.T(mu.Key) == "$3" { // inner set: m[addr] = {}
-					n++
-					c.Ok(q5, FuncName(fn)+"/insert-addr", c.pos(mu), "m[addr] = struct{}{} with addr = $3")
-				}
+		for _, st := range Sites(fn) { // Sites: also through a helper extracted later (inline.go)
+			if st.Kind == "mapupdate" && len(st.Args) == 3 && strings.HasSuffix(st.Args[0], "}") && st.Args[1] == "$3" { // inner set: m[addr] = {}
+				n++
+				c.Ok(q5, FuncName(fn)+"/insert-addr", c.pos(st.Instr), "m[addr] = struct{}{} with addr = $3")
 			}
-		})
+		}
 		if n == 0 {
 			c.Bad(q5, FuncName(fn)+"/insert-addr", c.P.Pos(fn.Pos()), "no insertion of the requested address into the per-port set")
 		}
